@@ -251,14 +251,21 @@ class Component( ComponentLevel7 ):
       # the block may belong to an ancestor of parent
       top._dsl.all_upblk_hostobj[blk]._dsl.upblk_calls[blk].add( eval(obj_name) )
 
+    # the function may belong to an ancestor of parent
+    def func_host( func ):
+      host = parent
+      while func not in getattr( host._dsl, "func_reads", {} ):
+        host = host.get_parent_object()
+      return host
+
     for func, obj_name in provided_func_reads:
-      parent._dsl.func_reads[func].add( eval(obj_name) )
+      func_host( func )._dsl.func_reads[func].add( eval(obj_name) )
 
     for func, obj_name in provided_func_writes:
       parent._dsl.func_writes[func].add( eval(obj_name) )
 
     for func, obj_name in provided_func_calls:
-      parent._dsl.func_calls[func].add( eval(obj_name) )
+      func_host( func )._dsl.func_calls[func].add( eval(obj_name) )
 
     # Put back the explicit constraints that ancestors declared on objects
     # of the replaced component
@@ -379,12 +386,17 @@ class Component( ComponentLevel7 ):
         hosts.append( host )
         host = host.get_parent_object()
 
+      # A block that loops over a list of components or interfaces
+      # ( for m in s.subs ) has them in its read set
+      removed_readables = removed_connectables | removed_components | \
+                          foo._collect_all_single( lambda x: isinstance( x, Interface ) )
+
       for host in hosts:
         for blk, reads in host._dsl.upblk_reads.items():
           assert blk in top._dsl.all_upblk_reads
           to_save = set()
           for x in reads:
-            if x in removed_connectables:
+            if x in removed_readables:
               to_save.add( x )
               saved_upblk_reads.append( (blk, repr(x)) )
           host._dsl.upblk_reads[blk] -= to_save
@@ -412,14 +424,25 @@ class Component( ComponentLevel7 ):
               saved_upblk_calls.append( (blk, repr(x)) )
           host._dsl.upblk_calls[blk] -= to_save
 
-      # We need to save the information for funcs too
-      for func, reads in parent._dsl.func_reads.items():
-        to_save = set()
-        for x in reads:
-          if x in removed_connectables:
-            to_save.add( x )
-            saved_func_reads.append( (func, repr(x)) )
-        parent._dsl.func_reads[func] -= to_save
+      # We need to save the information for funcs too; like the blocks,
+      # the functions of every ancestor can read a port or call a method
+      # (port or interface) of the deleted component
+      for host in hosts:
+        for func, reads in getattr( host._dsl, "func_reads", {} ).items():
+          to_save = set()
+          for x in reads:
+            if x in removed_connectables:
+              to_save.add( x )
+              saved_func_reads.append( (func, repr(x)) )
+          host._dsl.func_reads[func] -= to_save
+
+        for func, calls in getattr( host._dsl, "func_calls", {} ).items():
+          to_save = set()
+          for x in calls:
+            if x in removed_callables:
+              to_save.add( x )
+              saved_func_calls.append( (func, repr(x)) )
+          host._dsl.func_calls[func] -= to_save
 
       for func, writes in parent._dsl.func_writes.items():
         to_save = set()
@@ -428,14 +451,6 @@ class Component( ComponentLevel7 ):
             to_save.add( x )
             saved_func_writes.append( (func, repr(x)) )
         parent._dsl.func_writes[func] -= to_save
-
-      for func, calls in parent._dsl.func_calls.items():
-        to_save = set()
-        for x in calls:
-          if x in removed_connectables:
-            to_save.add( x )
-            saved_func_calls.append( (func, repr(x)) )
-        parent._dsl.func_calls[func] -= to_save
 
       # Explicit constraints that the parent (or any ancestor) declared on
       # signals / method ports of the deleted component are keyed by the
